@@ -61,7 +61,7 @@ def run_generic(E, case, prop, fam, forking=True):
     except Exception as e:      # noqa: BLE001 - code under test raised on valid input
         import traceback
         tb = traceback.format_exc()[-600:]
-        res_, m = solve_exists(inp.pre, True)
+        res_, m = solve_exists(list(inp.pre) + list(getattr(e, "gb_pc", [])), True)
         model = inp.eval(m) if m is not None else {}
         return {"verdict": "sat", "solver_s": 0.0, "symex_s": time.time() - t0, "n_queries": 1, "obligations": 0,
                 "failed_obligations": [], "witnesses": {}, "encoded": sorted(E.encoded),
@@ -108,7 +108,7 @@ def run_generic(E, case, prop, fam, forking=True):
 
 def raises_result(E, inp, prop, sig, case, e, t0):
     """the code under test raised on valid input: a candidate 'fails instead of returning', to be confirmed by the replay"""
-    res_, m = solve_exists(inp.pre, True)
+    res_, m = solve_exists(list(inp.pre) + list(getattr(e, "gb_pc", [])), True)
     return {"verdict": "sat", "solver_s": 0.0, "symex_s": time.time() - t0, "n_queries": 1, "obligations": 0, "failed_obligations": [],
             "witnesses": {}, "encoded": sorted(E.encoded),
             "candidates": [{"signature": f"{prop}:raises:{type(e).__name__}:{sig}", "case": case,
